@@ -764,6 +764,9 @@ func (g *Gen) confMacro() {
 			break
 		}
 		g.plainStep(lead)
+		if !lead.Up {
+			break
+		}
 		if firstConf == 0 {
 			firstConf = s.Peek(lead).Last
 		}
